@@ -160,6 +160,7 @@ def base_engine(root, axioms=()):
     eng.lib["np.sqrt"] = lambda e, st, a, kw, node: VSeq(FnArr(lambda k_: usqrt(a[0].arr[k_])), a[0].len) if isinstance(a[0], VSeq) else VNum(usqrt(e.num(a[0], st).real()))
     eng.lib["np.all"] = lambda e, st, a, kw, node: a[0] if isinstance(a[0], VBool) else e.bool_reduce(a[0], "all")
     eng.lib["np.arange"] = lambda e, st, a, kw, node: VSeq(FnArr(lambda k_: z3.ToReal(k_)), a[0].e)
+    eng.lib["np.sum"] = lambda e, st, a, kw, node: VNum(fresh("sum_of_an_array", R))          # some number determined by the array: nothing else is known about it (not, e.g., that it is the number of all entries)
     eng.lib["np.abs"] = lambda e, st, a, kw, node: VSeq(FnArr(lambda k_: z3.If(a[0].arr[k_] >= 0, a[0].arr[k_], -a[0].arr[k_])), a[0].len)
     for scale, key in (("linear", "np.linspace"), ("log", "np.geomspace")):
         eng.lib[key] = lambda e, st, a, kw, node, scale=scale: VSeq(space[scale](a[0].real(), a[1].real(), a[2].e if a[2].is_int else z3.ToInt(a[2].e)), a[2].e if a[2].is_int else z3.ToInt(a[2].e))
